@@ -456,6 +456,9 @@ func (env *SpecEnv) fieldOf(base SVal, fname string) SVal {
 		}
 		idx, ft := fieldIndex(su, fname)
 		if idx < 0 {
+			if emb := embeddedWith(su, fname); emb != "" {
+				return env.fieldOf(env.fieldOf(base, emb), fname)
+			}
 			env.fail("no field %s in %s", fname, st)
 		}
 		np := base.P.extend(PathElem{Field: idx, Cont: st}, ft)
@@ -472,10 +475,29 @@ func (env *SpecEnv) fieldOf(base SVal, fname string) SVal {
 	}
 	idx, ft := fieldIndex(su, fname)
 	if idx < 0 {
+		if emb := embeddedWith(su, fname); emb != "" {
+			return env.fieldOf(env.fieldOf(base, emb), fname)
+		}
 		env.fail("no field %s in %s", fname, t)
 	}
 	val := vc.project(base.T, PathElem{Field: idx, Cont: t})
 	return vc.svalOfLoaded(val, ft)
+}
+
+// embeddedWith names the embedded field of st through which the promoted field name is reachable.
+func embeddedWith(st *types.Struct, name string) string {
+	for i := 0; i < st.NumFields(); i++ {
+		f := st.Field(i)
+		if !f.Embedded() {
+			continue
+		}
+		if es, ok := derefType(f.Type()).Underlying().(*types.Struct); ok {
+			if j, _ := fieldIndex(es, name); j >= 0 || embeddedWith(es, name) != "" {
+				return f.Name()
+			}
+		}
+	}
+	return ""
 }
 
 func fieldIndex(st *types.Struct, name string) (int, types.Type) {
@@ -1132,6 +1154,18 @@ func (env *SpecEnv) callExpr(e *SExpr) SVal {
 			env.fail("fresh() needs a pre-state")
 		}
 		return SVal{T: mk(fmt.Sprintf("(>= %s %s)", r.S, env.old.top.S), sortBool)}
+	case "has":
+		// has(m, k): key k is present in map m
+		m := env.eval(e.Args[0])
+		mt, ok := m.GoT.Underlying().(*types.Map)
+		if !ok {
+			env.fail("has() needs a map")
+		}
+		mv := vc.mapValue(env.st, m.T, mt)
+		k := env.coerce(env.eval(e.Args[1]), mt.Key())
+		r := tSelect(vc.mapAcc(mt, "dom", mv), k)
+		r.T = sortBool
+		return SVal{T: tAnd(tNot(tEq(m.T, mk("0", sortRef))), r)}
 	case "flag":
 		// flag(IsProposal026): the fork flag read by common.IsProposal026()
 		if len(e.Args) != 1 || e.Args[0].Op != "id" {
